@@ -237,3 +237,7 @@ impl InvalidKey {
         InvalidKey { key_bytes, source }
     }
 }
+
+#[cfg(kani)]
+#[path = "/verif/kani/swimos_runtime/backpressure.rs"]
+mod verif_kani;
